@@ -15,6 +15,10 @@ def run():
                  % (13 ** (5 if ck.thorough else 4), 5 if ck.thorough else 4))
     if not r['ok']:
         ck.violation('model:RxBranch', 'termination model violated', vlib.tlc_error_summary(r['out'], 50))
+    rl = vlib.tlc('RxBranch', 'MCBranchLive.cfg', workers=8, timeout=1500, xmx='8g')
+    ck.add_model('MCBranchLive', rl, 'liveness: under weak fairness of the step relation every run of every program of length 4 reaches the end (<>(pc = N))')
+    if not rl['ok']:
+        ck.violation('model:RxBranch:liveness', 'a run of the branch machine does not terminate', vlib.tlc_error_summary(rl['out'], 50))
     # the same lemma on the real window arithmetic, for every register value and immediate, proved by TLAPS for each condition position
     pr = vlib.tlaps('BranchLemma', timeout=1500)
     ck.cov['parts']['BranchLemma(TLAPS)'] = {'what': 'for b = 8..23, all r and cimm below 2^(b+8) with bit b set and bit b-1 cleared: never three consecutive takes',
